@@ -120,6 +120,11 @@ func ExportSecSessionInfo(policy *classad.ClassAd) (string, error) {
 	// (dot-delimited) exactly as C++ does, because ',' cannot appear in a claim
 	// id.  A single method is emitted as-is.
 	if cm, ok := policy.EvaluateAttrString("CryptoMethods"); ok && cm != "" {
+		// '.' stands in for ',' inside a claim id and is turned back into ',' on
+		// import, so a method name containing '.' would not survive the round trip.
+		if strings.Contains(cm, ".") {
+			return "", fmt.Errorf("CryptoMethods %q contains '.', which is the list delimiter inside a claim id", cm)
+		}
 		if strings.Contains(cm, ",") {
 			methods := strings.Split(cm, ",")
 			out["CryptoMethods"] = quote(strings.TrimSpace(methods[0]))
@@ -135,7 +140,14 @@ func ExportSecSessionInfo(policy *classad.ClassAd) (string, error) {
 	}
 
 	names := make([]string, 0, len(out))
-	for name := range out {
+	for name, val := range out {
+		// ';' terminates an attribute in the session_info grammar and the importer
+		// splits on it without looking at quotes: a value containing ';' would be
+		// cut short and its tail read as further attributes (e.g. a second
+		// SessionExpires overriding the real one).
+		if strings.Contains(val, ";") {
+			return "", fmt.Errorf("exported session info attribute %s contains ';', which is illegal in a claim id: %q", name, val)
+		}
 		names = append(names, name)
 	}
 	sortStrings(names)
